@@ -690,9 +690,16 @@ func evalStack(sstack []any) []any {
 			}
 		case in.code:
 			sstack[i] = false
-			if list, ok := right.([]any); ok {
+			list, ok := right.([]any)
+			if ga, isGen := right.(gen.Array); isGen { // a list taken from gen data
+				list, ok = make([]any, len(ga)), true
+				for j, n := range ga {
+					list[j] = n
+				}
+			}
+			if ok {
 				for _, ev := range list {
-					if left == ev {
+					if sameValue(left, normalize(ev)) {
 						sstack[i] = true
 						break
 					}
